@@ -239,7 +239,7 @@ pub open spec fn embeds_sel(c: TextSelection, t: TextSelection) -> bool { c.begi
                     ('value', f'r is Ok ==> r->Ok_0.begin == Cursor::BeginAligned((self.begin + abs_pos(offset.begin, {SLEN}).unwrap()) as usize) && r->Ok_0.end == Cursor::BeginAligned((self.begin + abs_pos(offset.end, {SLEN}).unwrap()) as usize)')]),
         Fn('beginaligned_cursor', props=P, ret='r', requires=[('wf_self', 'wf_sel(*self)')],
            ensures=[(l, t.replace('LEN', SLEN)) for l, t in BAC_ENS]),
-        Fn('textselection_by_offset', props=P, ret='r', requires=[('wf_self', 'wf_sel(*self)')],
+        Fn('textselection_by_offset', props=P + ['C14'], ret='r', requires=[('wf_self', 'wf_sel(*self)')],
            ensures=[('accept_iff', f'r is Ok <==> accept(*offset, {SLEN})'),
                     ('range', 'r is Ok ==> (r->Ok_0.begin as int, r->Ok_0.end as int) == resolve_in(*offset, *self)'),
                     ('inside', 'r is Ok ==> wf_sel(r->Ok_0) && embeds_sel(*self, r->Ok_0)'),
@@ -269,7 +269,13 @@ impl TextResource {
     pub open spec fn known(&self, b: usize, e: usize) -> bool {
         self.positionindex.0@.contains_key(b) && exists|i: int| 0 <= i < self.positionindex.0@[b].begin2end@.len() && (#[trigger] self.positionindex.0@[b].begin2end@[i]).0 == e
     }
+    /// ghost: the position index lists handle h for the range (b, e)
+    pub open spec fn listed(&self, b: usize, e: usize, h: TextSelectionHandle) -> bool {
+        self.positionindex.0@.contains_key(b) && exists|i: int| 0 <= i < self.positionindex.0@[b].begin2end@.len() && (#[trigger] self.positionindex.0@[b].begin2end@[i]) == (e, h)
+    }
 }
+/// a cursor that resolves to a position of a text of that length (what beginaligned_cursor accepts)
+pub open spec fn abs_cursor_ok(c: Cursor, len: int) -> bool { abs_pos(c, len) is Some }
 """, 'contracts/u_off.py:known')
     u.impl(R, "impl<'store> Text<'store, 'store> for TextResource", [
         Fn('text', props=P4, ret='r'),
@@ -283,9 +289,20 @@ impl TextResource {
                ('range', 'r is Ok ==> r->Ok_0.begin as int == abs_pos(offset.begin, self.textlen as int).unwrap() && r->Ok_0.end as int == abs_pos(offset.end, self.textlen as int).unwrap()'),
                ('wf', 'r is Ok ==> wf_sel(r->Ok_0) && r->Ok_0.end <= self.textlen')]
     u.impl(R, 'impl TextResource', [
+        Fn('known_textselection', props=P4 + ['C06'], ret='r',
+           rewrites=[('R-forname', r'for \(end2, handle\) in beginitem\.begin2end\.iter\(\)', 'for (end2, handle) in vx_it: beginitem.begin2end.iter()')],
+           loops={0: dict(invariant=[('cursors', 'abs_pos(offset.begin, self.textlen as int) == Some(begin as int) && abs_pos(offset.end, self.textlen as int) == Some(end as int)'),
+                                     ('not_yet', 'forall|j: int| 0 <= j < vx_it.index@ ==> (#[trigger] beginitem.begin2end@[j]).0 != end'),
+                                     ('same_item', 'self.positionindex.0@.contains_key(begin) && *beginitem == self.positionindex.0@[begin]')])},
+           ensures=[('ok_iff_cursors', 'r is Ok <==> (abs_cursor_ok(offset.begin, self.textlen as int) && abs_cursor_ok(offset.end, self.textlen as int))'),
+                    ('some_iff_known', 'r is Ok ==> (r->Ok_0 is Some <==> self.known(abs_pos(offset.begin, self.textlen as int).unwrap() as usize, abs_pos(offset.end, self.textlen as int).unwrap() as usize))'),
+                    ('the_listed_handle', 'r is Ok && r->Ok_0 is Some ==> self.listed(abs_pos(offset.begin, self.textlen as int).unwrap() as usize, abs_pos(offset.end, self.textlen as int).unwrap() as usize, r->Ok_0.unwrap())')]),
         Fn('textselection_by_offset', props=P + ['C14'], ret='r',
-           ensures=RES_ENS + [('handle_known', 'r is Ok && r->Ok_0.intid is Some ==> self.known(r->Ok_0.begin, r->Ok_0.end)')],
-           loops={0: dict(invariant=[('handle_known', 'handle is Some ==> self.known(begin, end)'), ('same_item', 'self.positionindex.0@.contains_key(begin) && *beginitem == self.positionindex.0@[begin]')])},
+           ensures=RES_ENS + [('handle_iff_known', 'r is Ok ==> (r->Ok_0.intid is Some <==> self.known(r->Ok_0.begin, r->Ok_0.end))'),
+                              ('the_listed_handle', 'r is Ok && r->Ok_0.intid is Some ==> self.listed(r->Ok_0.begin, r->Ok_0.end, r->Ok_0.intid.unwrap())')],
+           loops={0: dict(invariant=[('handle_known', 'handle is Some ==> self.listed(begin, end, handle.unwrap())'),
+                                     ('complete', 'handle is None ==> forall|j: int| 0 <= j < vx_it.index@ ==> (#[trigger] beginitem.begin2end@[j]).0 != end'),
+                                     ('same_item', 'self.positionindex.0@.contains_key(begin) && *beginitem == self.positionindex.0@[begin]')])},
            rewrites=[('R-forname', r'for \(end2, gothandle\) in beginitem\.begin2end\.iter\(\)', 'for (end2, gothandle) in vx_it: beginitem.begin2end.iter()')]),
         Fn('textselection_by_offset_unchecked', props=P + ['C14'], ret='r',
            ensures=RES_ENS + [('unbound', 'r is Ok ==> r->Ok_0.intid is None')]),
